@@ -14,6 +14,10 @@ import (
 type c33Case struct {
 	Spec memsys.AssemblySpec `json:"spec"`
 	Sets []memsys.Observers  `json:"sets"`
+	// ResetAt > 0: every bottom and level is Reset through its control port
+	// (bottom-up, one acknowledged Reset at a time) at ResetAt/16 of the
+	// unobserved, uninterrupted run's length, with traffic in flight.
+	ResetAt int `json:"reset_at,omitempty"`
 }
 
 func obsName(o memsys.Observers) string {
@@ -29,6 +33,7 @@ func obsName(o memsys.Observers) string {
 	add(o.Aggregate, "agg")
 	add(o.EngineHook, "engine-hook")
 	add(o.PortHooks, "port-hooks")
+	add(o.BufHooks, "buffer-hooks")
 	if s == "" {
 		return "none"
 	}
@@ -37,13 +42,23 @@ func obsName(o memsys.Observers) string {
 
 func TestC33Observers(t *testing.T) {
 	s := kit.Begin(t, "C33", "observers",
-		"C16 assemblies; the same case is run with no observer at all (capturing registrar, NumHooks()==0 fast paths everywhere) and with 3 (quick) drawn observer sets out of: real simulation.Simulation (idle DBTracer hook on every component, incoming/outgoing port buffer tracers), DBTracer recording into SQLite from the start, a recording tracer on every component and connection, total/average/busy/tag-count tracers, an engine hook, a hook on every port. Outcome = per requester the ordered (simulated time, request index, response kind, data) list + end time + final backing bytes of every written line; generated IDs never enter the comparison. Every observed outcome must equal the unobserved one. Non-trivial: some set traced >=100 tasks and the assembly has a cache and requester backpressure")
+		"C16 assemblies; the same case is run with no observer at all (capturing registrar, NumHooks()==0 fast paths everywhere) and with 3 (quick) drawn observer sets out of: real simulation.Simulation (idle DBTracer hook on every component, incoming/outgoing port buffer tracers), DBTracer recording into SQLite from the start, a recording tracer on every component and connection, total/average/busy/tag-count tracers, an engine hook, a hook on every port, a hook on every queueing.Buffer inside the State of every level and bottom. In 1 of 3 cases every bottom and level is additionally Reset through its control port (bottom-up, one acknowledged Reset at a time) at k/16 of the unobserved run's length, so flush/reset paths (Buffer.Clear, port drains, task teardown) run with traffic in flight in both legs. Outcome = per requester the ordered (simulated time, request index, response kind, data) list + end time + control acknowledgement times + final backing bytes of every written line; generated IDs never enter the comparison. Every observed outcome must equal the unobserved one. Non-trivial: some set traced >=100 tasks and the assembly has a cache and requester backpressure")
 	defer s.End()
 	run := func(f kit.Failer, c c33Case) {
 		dir := workDir(t)
 		defer os.RemoveAll(dir)
 		var base memsys.Outcome
-		ok, sig, msg := kit.Guard(func() { base, _ = memsys.RunObserved(c.Spec, memsys.Observers{}, dir) })
+		ctlAt := uint64(0)
+		if c.ResetAt > 0 {
+			var plain memsys.Outcome
+			ok, sig, msg := kit.Guard(func() { plain, _ = memsys.RunObserved(c.Spec, memsys.Observers{}, dir) })
+			if !ok {
+				s.Fail(f, c, sig, "%s", msg)
+				return
+			}
+			ctlAt = plain.EndTime * uint64(c.ResetAt) / 16
+		}
+		ok, sig, msg := kit.Guard(func() { base, _ = memsys.RunObservedCtl(c.Spec, memsys.Observers{}, dir, ctlAt, nil) })
 		if !ok {
 			s.Fail(f, c, sig, "%s", msg)
 			return
@@ -51,7 +66,7 @@ func TestC33Observers(t *testing.T) {
 		maxTasks := 0
 		for _, o := range c.Sets {
 			var out memsys.Outcome
-			ok, sig, msg := kit.Guard(func() { out, _ = memsys.RunObserved(c.Spec, o, dir) })
+			ok, sig, msg := kit.Guard(func() { out, _ = memsys.RunObservedCtl(c.Spec, o, dir, ctlAt, nil) })
 			if !ok {
 				s.Fail(f, c, "observed-run-"+sig, "observers %s: %s", obsName(o), msg)
 				return
@@ -72,6 +87,18 @@ func TestC33Observers(t *testing.T) {
 		if base.Err != "" {
 			classes = append(classes, "base-run-incomplete")
 		}
+		if ctlAt > 0 {
+			classes = append(classes, "mid-run-reset")
+			if base.Err != "" {
+				classes = append(classes, "mid-run-reset-dropped-requests")
+			}
+			for _, o := range c.Sets {
+				if o.BufHooks {
+					classes = append(classes, "mid-run-reset+buffer-hooks")
+					break
+				}
+			}
+		}
 		s.Note(c, maxTasks >= 100 && hasCache, classes...)
 	}
 	var c c33Case
@@ -88,10 +115,13 @@ func TestC33Observers(t *testing.T) {
 	rapid.Check(t, func(rt *rapid.T) {
 		spec := memsys.GenAssembly(rt, memsys.GenOpts{Bottoms: []string{"ideal", "banked", "dram"}})
 		c := c33Case{Spec: spec}
+		if rapid.IntRange(0, 2).Draw(rt, "reset") == 0 {
+			c.ResetAt = rapid.IntRange(1, 15).Draw(rt, "resetAt")
+		}
 		n := kit.Scale(3, 5)
 		for i := 0; i < n; i++ {
 			o := memsys.Observers{}
-			switch rapid.IntRange(0, 6).Draw(rt, "kind") {
+			switch rapid.IntRange(0, 7).Draw(rt, "kind") {
 			case 0:
 				o.Sim = true
 			case 1:
@@ -104,9 +134,11 @@ func TestC33Observers(t *testing.T) {
 				o.EngineHook = true
 			case 5:
 				o.PortHooks = true
+			case 6:
+				o.BufHooks = true
 			default:
 				o = memsys.Observers{Sim: rapid.Bool().Draw(rt, "sim"), RecTracer: rapid.Bool().Draw(rt, "rec"), Aggregate: rapid.Bool().Draw(rt, "agg"),
-					EngineHook: rapid.Bool().Draw(rt, "eh"), PortHooks: rapid.Bool().Draw(rt, "ph")}
+					EngineHook: rapid.Bool().Draw(rt, "eh"), PortHooks: rapid.Bool().Draw(rt, "ph"), BufHooks: rapid.Bool().Draw(rt, "bh")}
 				if o.Sim {
 					o.VisTracing = rapid.Bool().Draw(rt, "vis")
 				}
